@@ -58,8 +58,7 @@ size_t cqv_needed;     /* flush_block: the encoder's packed_bytes_needed */
 #define DELTA_DEC_HDR(d) ((d)->size <= CQV_MAXBUF \
   && (d)->mini_blocks_per_block >= 1 && (d)->mini_blocks_per_block <= 4 \
   && (d)->block_size >= 1 && (d)->block_size <= 128 \
-  && (d)->block_size / (d)->mini_blocks_per_block <= 32 \
-  && (((d)->block_size / (d)->mini_blocks_per_block) & 7) == 0)   /* whole groups of 8: carquet_bitunpack_32 reads whole groups */
+  && (d)->block_size / (d)->mini_blocks_per_block <= 32)
 /* moving part */
 #define DELTA_DEC_CUR(d) ((d)->pos <= (d)->size \
   && (d)->current_mini_block >= 0 && (d)->current_mini_block <= (d)->mini_blocks_per_block \
